@@ -2,7 +2,7 @@
     graphql.Schema, what introspection.ComputeSchemaJSON printed, and PrepareQuery's verdict on each
     generated query. *)
 From Coq Require Import List ZArith String Bool Arith.
-From Thunder Require Import Lib.Json GqlTyping.Types GqlTyping.Parse GqlTyping.Typing GqlTyping.Introspect GqlTyping.Conformb.
+From Thunder Require Import Lib.Json GqlTyping.Types GqlTyping.Parse GqlTyping.Typing GqlTyping.Introspect GqlTyping.Conformb GqlTyping.GoTypes.
 Import ListNotations.
 Open Scope string_scope.
 Open Scope list_scope.
@@ -11,10 +11,12 @@ Open Scope list_scope.
     [c_types]: `__schema.types` of introspection.ComputeSchemaJSON, as printed; [c_resps]: the validated
     queries that were executed, with the response the executor returned (`__key` entries dropped);
     [c_scalars]: the `scalars` table of schemabuilder/build.go as go/ast reads it from the tree under test
-    (Go type expression, scalar name). *)
+    (Go type expression, scalar name); [c_gofields]: owner, graphql name, way of registration and Go type
+    of every generated field (paginated fields excepted). *)
 Record case14 := mk14 { c_sch : schema; c_isch : schema; c_queries : list (gdoc * nat);
                         c_x : xschema; c_types : json; c_resps : list (gdoc * json);
-                        c_scalars : list (string * string) }.
+                        c_scalars : list (string * string);
+                        c_gofields : list (string * string * fkind * gotype) }.
 
 (** The verdict only (0 accepted, 1 client error, 99 crash), never the wording of the error. *)
 Definition verdict_code {A} (r : res A) : nat :=
@@ -75,7 +77,22 @@ Definition scalars_match (src : list (string * string)) : bool :=
                     end) src &&
   forallb (fun e => mem (fst e) (map snd src)) scalar_table.
 
+(** 12: the model of getType / getReturnType / consumeReturnValue gives a generated field another type
+    than the builder gave it (fields of types that are not reachable from the roots are not walked). *)
+Definition check_gofield (sch : schema) (e : string * string * fkind * gotype) : bool :=
+  let '(owner, name, k, g) := e in
+  match lookup owner sch with
+  | Some (DObject fs _) =>
+      match lookup name fs, field_type k g with
+      | Some t, Some t' => tref_eqb t t'
+      | _, _ => false
+      end
+  | Some _ => false
+  | None => true
+  end.
+
 Definition check_introspection (c : case14) : list nat :=
+  (if forallb (check_gofield (c_sch c)) (c_gofields c) then [] else [12]) ++
   (if xwf (c_x c) then [] else [13]) ++
   (if json_eqb (norm (introspect_types (c_x c))) (norm (c_types c)) then [] else [7]) ++
   (if schema_eqb (filter non_scalar (erase (xnormalize (c_x c)))) (filter non_scalar (advertised (c_sch c))) then [] else [9]) ++
